@@ -287,6 +287,8 @@ def gen_case(rng, kind, tier, flavour=None, small=False):
                     r['rid'] = remap[r['rid']]
             c['nref'] = nref = max(1, len(used))
             c['names'] = names[:nref]
+            if nref >= 2 and rng.random() < 0.2 and '' not in c['names'][:-1]:
+                c['names'][-1] = ''                    # a trailing empty reference name
             c['tbx'] = [rng.choice([0, 1, 2, 2, rng.randrange(256)]), rng.randrange(2), rng.randrange(1, 9), rng.randrange(1, 9), rng.randrange(0, 9),
                         rng.choice([35, 35, 64, rng.randrange(0, 1 << 20)]), rng.choice([0, 0, 1, 7, rng.randrange(0, 1 << 30)])]
     lay = layout(rng, len(recs), mono=mono, zero_start=(kind != 'bai' and rng.random() < 0.1) or (kind == 'bai' and rng.random() < 0.03))
@@ -347,6 +349,62 @@ def gen_case(rng, kind, tier, flavour=None, small=False):
     return c
 
 
+def gen_nested(rng, kind, tier):
+    """A higher-level bin holding records before and after a lower-level bin's
+    record in file order, coalesced by Squash / Compressor, then queried: the
+    candidate list contains a chunk that encloses a later-beginning one."""
+    c = gen_case(rng, kind, tier, None, small=True)
+    if kind == 'csi' and c['ms'] < 8:
+        c['ms'] = rng.randrange(8, 21)
+    ms, dp = (c.get('ms', 14), c.get('dp', 5)) if kind == 'csi' else (14, 5)
+    hi = (1 << (ms + 3 * dp)) - 2
+    lvl = rng.randrange(1, min(dp, 3) + 1)
+    w = 1 << (ms + 3 * lvl)                      # width of a level-(dp-lvl) bin
+    if 2 * w + 10 > hi:
+        return c
+    base = rng.randrange(0, 3) * w
+    if base + 2 * w > hi:
+        base = 0
+    t = 1 << ms
+    a = base + rng.randrange(0, t)
+    recs = [dict(rid=0, pos=a, end=min(hi, a + t + rng.randrange(1, w - 2 * t))),
+            dict(rid=0, pos=a + t + rng.randrange(0, 50), end=0),
+            dict(rid=0, pos=0, end=0)]
+    recs[1]['pos'] = ((recs[1]['pos'] >> ms) << ms) + rng.randrange(0, t - 60)
+    recs[1]['end'] = recs[1]['pos'] + rng.randrange(1, 50)
+    recs[2]['pos'] = recs[1]['end'] + rng.randrange(0, t)
+    recs[2]['end'] = min(hi, max(recs[2]['pos'] + t + 1, ((recs[2]['pos'] >> ms) + 2) << ms) + rng.randrange(0, t))
+    for _ in range(rng.randrange(0, 3)):
+        p = recs[-1]['pos'] + rng.randrange(0, 2 * t)
+        recs.append(dict(rid=0, pos=p, end=min(hi, p + rng.choice([5, t + 7, 3 * t]))))
+    recs = [r for r in recs if r['pos'] < r['end'] <= hi]
+    recs.sort(key=lambda r: r['pos'])
+    if kind == 'bai':
+        for r in recs:
+            r['flags'] = 0
+            r['cig'] = cigar_for(rng, r['end'] - r['pos'])
+        c['real'] = rng.random() < 0.4
+    else:
+        for r in recs:
+            r['placed'], r['mapped'] = True, True
+        if kind == 'tabix':
+            c['names'] = (c.get('names') or ['chrN'])[:1]
+    c['nref'] = 1
+    lay = layout(rng, len(recs))
+    for r, (b, e) in zip(recs, lay):
+        r['cb'], r['ce'] = b, e
+    c['recs'] = recs
+    qs = []
+    for r in recs:
+        for _ in range(2):
+            b = max(0, r['pos'] - rng.randrange(0, 3 * t))
+            qs.append([0, b, min(hi + 1, max(b + 1, r['pos'] + rng.randrange(1, t)))])
+    c['queries'] = qs[:10]
+    c['strat'] = rng.choice(['squash', 'squash', 'comp:0', 'comp:100', 'comp:65536'])
+    c['wellformed'], c['mono'], c['flavour'] = True, True, 'nested'
+    return c
+
+
 def gen_cases(rng, tier, kinds=('bai', 'csi', 'tabix'), n=None, small=False):
     per = n if n is not None else (80 if tier == 'quick' else 1200)
     cases = []
@@ -367,6 +425,9 @@ def gen_cases(rng, tier, kinds=('bai', 'csi', 'tabix'), n=None, small=False):
             elif r < 0.4 and kind == 'bai':
                 fl = 'zerolen'
             cases.append(gen_case(rng, kind, tier, fl, small=small))
+    for kind in kinds:
+        for _ in range(max(2, per // 8)):
+            cases.append(gen_nested(rng, kind, tier))
     # no records at all / only unplaced records
     for kind in kinds:
         c = gen_case(rng, kind, tier)
